@@ -568,7 +568,13 @@ class RequestHandler(BaseProtocol, Generic[_Request]):
         """
         self._close = True
         if self._waiter:
+            idle = not self._waiter.done()
             self._waiter.cancel()
+            if idle and self.transport is not None:
+                # Idle keep-alive connection: start() leaves through the
+                # CancelledError of the waiter and never reaches its own
+                # transport.close(); there is no handler to wait for.
+                self.transport.close()
 
     def force_close(self) -> None:
         """Forcefully close connection."""
